@@ -359,11 +359,19 @@ func apDirect(fs afero.Fs, obs *apObs, hang time.Duration) {
 		go func() {
 			defer wg.Done()
 			for {
+				// a slot is reserved before Acquire so that never more than stop items are taken; a slot that
+				// ended in ok=false is given back, and a consumer stops only when stop items were really taken
 				if reserved.Add(1) > int64(c.Stop) {
-					return // the cut: this consumer stops taking
+					reserved.Add(-1)
+					if count.Load() >= int64(c.Stop) {
+						return // the cut: this consumer stops taking
+					}
+					time.Sleep(20 * time.Microsecond)
+					continue
 				}
 				a, ok := p.Acquire()
 				if !ok {
+					reserved.Add(-1)
 					eofs.Add(1)
 					touch()
 					return
